@@ -449,6 +449,18 @@ pub fn reexecute<C: Fc>(
     pins: &HashMap<u32, C::EF>,
     freeze_others: bool,
 ) -> Result<(Vec<C::EF>, Traces<C::EF>), String> {
+    reexecute_pd::<C>(circuit, honest, pins, freeze_others, Vec::new())
+}
+
+/// `reexecute` with the private payloads of non-primitive ops (`(op id, payload)`), e.g. the
+/// sibling limbs of Merkle-mode permutation rows.
+pub fn reexecute_pd<C: Fc>(
+    circuit: &Circuit<C::EF>,
+    honest: &Traces<C::EF>,
+    pins: &HashMap<u32, C::EF>,
+    freeze_others: bool,
+    payloads: Vec<(u32, p3_circuit::ops::NpoPrivateData)>,
+) -> Result<(Vec<C::EF>, Traces<C::EF>), String> {
     use p3_circuit::ops::{ExecutionContext, NpoPrivateData, OpStateMap};
     let w0 = assignment_of::<C>(circuit, honest);
     let n = w0.len();
@@ -474,7 +486,12 @@ pub fn reexecute<C: Fc>(
         })
         .max()
         .unwrap_or(0);
-    let private_data: Vec<Option<NpoPrivateData>> = (0..max_op).map(|_| None).collect();
+    let mut private_data: Vec<Option<NpoPrivateData>> = (0..max_op).map(|_| None).collect();
+    for (op, pd) in payloads {
+        if let Some(slot) = private_data.get_mut(op as usize) {
+            *slot = Some(pd);
+        }
+    }
     let mut op_states: OpStateMap = Default::default();
     let get = |wit: &[Option<C::EF>], id: WitnessId| wit[id.0 as usize].unwrap_or(w0[id.0 as usize]);
     for (i, op) in circuit.ops.iter().enumerate() {
